@@ -6,7 +6,10 @@ From VMQ Require Import model.WS.
 Inductive obs := ORead (runs : list (N * nat)) | OEof | OBlocked.
 Inductive case :=
 | CStream (frames : list nat) (sizes : list nat) (o : list obs)
-| CHandshake (proto : list N) (accepted : bool).
+| CHandshake (proto : list N) (accepted : bool)
+(* the broker side writes [n] data frames of [size] bytes while its reading side answers PINGs: the client received
+   [got] payload bytes in order, in frames that were whole ([whole]) *)
+| COut (n size got : nat) (whole : bool).
 
 (* byte at stream position p *)
 Definition byte_at (p : nat) : N := N.of_nat (p mod 251).
@@ -54,6 +57,7 @@ Definition case_ok (c : case) : bool :=
   | CStream fs sizes o =>
       let '(ms, _, _) := ws_run [] (mk_frames 0 fs) sizes in all_match ms o
   | CHandshake p acc => Bool.eqb acc (existsb (list_eqb N.eqb p) mqtt_protos)
+  | COut n size got whole => whole && Nat.eqb got (n * size)
   end.
 
 Fixpoint mismatches_from (i : nat) (cs : list case) : list nat :=
